@@ -22,6 +22,7 @@
 #include <errno.h>
 #include <sys/stat.h>
 #include <sys/time.h>
+#include <sys/wait.h>
 #include "lpc/program.h"
 #include "src/interpret.h"
 
@@ -224,6 +225,62 @@ static const char *rel (const char *p)
   return p;
 }
 
+/* patch list of a program as stored in its saved binary (what the driver itself will use); -1 if there is no binary */
+static int patches_from_binary (const char *progname, unsigned short *out, int max)
+{
+  char path[512];
+  unsigned char *d;
+  long size, o = 0;
+  int n = -1;
+  FILE *f;
+  bin_path (path, sizeof path, progname);
+  if (!(f = fopen (path, "rb")))
+    return -1;
+  fseek (f, 0, SEEK_END);
+  size = ftell (f);
+  fseek (f, 0, SEEK_SET);
+  d = (unsigned char *) malloc (size + 8);
+  if (fread (d, 1, size, f) != (size_t) size)
+    size = 0;
+  fclose (f);
+#define U16(v) do { if (o + 2 > size) goto done; memcpy (&(v), d + o, 2); o += 2; } while (0)
+#define SKIPN(cnt) do { for (int k_ = 0; k_ < (int) (cnt); k_++) { unsigned short l_; U16 (l_); o += l_; } } while (0)
+  {
+    unsigned short len;
+    uint32_t psize;
+    program_t hdr;
+    o = 4 + 4 + 8;
+    U16 (len);
+    o += len;			/* include list */
+    U16 (len);
+    o += len;			/* program name */
+    if (o + 4 > size)
+      goto done;
+    memcpy (&psize, d + o, 4);
+    o += 4;
+    if (psize < sizeof (program_t) || o + (long) psize > size)
+      goto done;
+    memcpy (&hdr, d + o, sizeof hdr);
+    o += psize;
+    SKIPN (hdr.num_inherited);
+    SKIPN (hdr.num_strings);
+    SKIPN (hdr.num_variables_defined);
+    SKIPN (hdr.num_functions_defined);
+    U16 (len);
+    o += len;			/* line numbers */
+    U16 (len);
+    if (o + len > size)
+      goto done;
+    n = len / 2;
+    if (n > max)
+      n = max;
+    memcpy (out, d + o, n * 2);
+  }
+done:
+  free (d);
+  return n;
+}
+
 /* ---- structural dump --------------------------------------------------------- */
 static void dump_prog (const char *tag, program_t * p)
 {
@@ -363,6 +420,18 @@ static void dump_prog (const char *tag, program_t * p)
   /* code: string switch tables dumped entry by entry, then masked out of the hash */
   {
     int s = pslot (p->name, 0);
+    if (s < 0 || !P[s].known)
+      {
+        /* not saved by this process: take the patch list from the binary, like the driver does */
+        static unsigned short tmp[256];
+        int np = patches_from_binary (p->name, tmp, 256);
+        if (np >= 0 && (s = pslot (p->name, 1)) >= 0)
+          {
+            P[s].npatch = np;
+            P[s].known = 1;
+            memcpy (P[s].patch, tmp, np * 2);
+          }
+      }
     unsigned char *code = (unsigned char *) malloc (p->program_size + 16);
     memcpy (code, p->program, p->program_size);
     if (s >= 0 && P[s].known)
@@ -423,7 +492,7 @@ static void dump_prog (const char *tag, program_t * p)
 }
 
 /* ---- system-style commands ---------------------------------------------------- */
-#define MAXCALL 64
+#define MAXCALL 400
 static char *calls[MAXCALL];
 static int ncalls = 0;
 static int reload_no = 0;
@@ -615,8 +684,10 @@ static int sys_cmd (char *line)
         calls[ncalls++] = strdup (tok[i]);
       return 1;
     }
-  if (!strcmp (tok[0], "reload") && n >= 2)
+  if ((!strcmp (tok[0], "reload") || !strcmp (tok[0], "reloadp")) && n >= 2)
     {
+      int fresh_process = tok[0][6] == 'p';
+      int report_fd = -1;
       /* reload <top> <family>...: destruct the whole family, load <top>, dump every loaded family member, run calls */
       object_t *top;
       if (!cleaned)
@@ -625,6 +696,41 @@ static int sys_cmd (char *line)
           return 1;
         }
       reload_no++;
+      if (fresh_process)
+        {
+          /* reloadp: the whole reload runs in a process forked from this one, which never loaded or interned anything
+             of the family: a new driver process as far as string addresses and loaded programs are concerned.  Only
+             the files it wrote and the virtual clock come back. */
+          int pfd[2];
+          pid_t pid;
+          fflush (stderr);
+          if (pipe (pfd) == -1 || (pid = fork ()) == -1)
+            {
+              vh_out ("fork-failed");
+              return 1;
+            }
+          if (pid != 0)
+            {
+              int status = 0;
+              long v = vnow;
+              close (pfd[1]);
+              if (read (pfd[0], &v, sizeof v) == (ssize_t) sizeof v)
+                vnow = v;
+              close (pfd[0]);
+              waitpid (pid, &status, 0);
+              if (WIFSIGNALED (status))
+                vh_out ("crash signal %d in reload process", WTERMSIG (status));
+              else if (WIFEXITED (status) && WEXITSTATUS (status) != 0)
+                {
+                  /* let the case end like a crash of the driver: the sanitizer report is already in the log */
+                  fflush (stderr);
+                  _exit (WEXITSTATUS (status));
+                }
+              return 1;
+            }
+          close (pfd[0]);
+          report_fd = pfd[1];
+        }
       vh_out ("begin %d", reload_no);
       for (int i = 1; i < n; i++)
         safe_destruct (tok[i]);
@@ -642,7 +748,7 @@ static int sys_cmd (char *line)
       if (top && !(top->flags & O_DESTRUCTED))
         for (int i = 0; i < ncalls; i++)
           {
-            char c[512], res[4096];
+            char c[1400], res[4096];
             char *a[8];
             int na = 0;
             snprintf (c, sizeof c, "%s", calls[i]);
@@ -653,12 +759,27 @@ static int sys_cmd (char *line)
                   *q = 0;
                   a[na++] = q + 1;
                 }
+            static char dec[8][600];
+            for (int k = 0; k < na; k++)
+              if (a[k][0] == '%')	/* %<hex>: an argument with spaces or colons */
+                {
+                  unhex (a[k] + 1, dec[k], sizeof dec[k]);
+                  a[k] = dec[k];
+                }
             int rc = vh_apply_str (top, fn, na, a, res, sizeof res);
             vh_out ("R %s %s", calls[i], rc == 1 ? "!err" : rc == 2 ? "!nofn" : res);
             if (top->flags & O_DESTRUCTED)
               break;
           }
       vh_out ("end %d", reload_no);
+      if (fresh_process)
+        {
+          long v = vnow;
+          fflush (stderr);
+          if (write (report_fd, &v, sizeof v) != (ssize_t) sizeof v)
+            _exit (3);
+          _exit (0);
+        }
       return 1;
     }
   return 0;
@@ -938,7 +1059,7 @@ static int c17_cmd (char *line)
 {
   if (line[0] == 'u')
     return unit_cmd (line);
-  if (!strncmp (line, "prog ", 5))
+  if (!strncmp (line, "prog ", 5) || !strncmp (line, "expect ", 7))
     return 1;			/* dependency declaration: used by the model and the judge only */
   return sys_cmd (line);
 }
